@@ -540,8 +540,16 @@ def main() -> None:
         and not args.nostdin
         and not sys.stdin.isatty()
     ):
-        exit_state = merge_docs(log, yaml_editor, merge_config, mergers, "-")
-        merge_count += 1
+        if len(mergers) < 1:
+            # There are no YAML_FILEs; STDIN is the left document stream
+            (mergers, mergers_loaded) = get_doc_mergers(
+                log, yaml_editor, merge_config, "-")
+            if not mergers_loaded:
+                exit_state = 4
+        else:
+            exit_state = merge_docs(
+                log, yaml_editor, merge_config, mergers, "-")
+            merge_count += 1
 
     # When no merges have occurred, check for a single-doc merge request
     if (exit_state == 0
